@@ -399,14 +399,24 @@ func validStream(rng *hx.Rng, c cdc, nframes int) (wire []piece, expect [][]byte
 			if n+len(c.Delim) > c.Max {
 				n = c.Max - len(c.Delim)
 			}
-			// payload bytes avoid the delimiter's first byte entirely: contract satisfied
+			// the payload never contains the delimiter, but it may contain (and end with) single bytes of a
+			// multi-byte delimiter: the first complete delimiter of payload+delimiter is the real one
 			b := make([]byte, n)
-			for j := range b {
-				for {
-					b[j] = byte(rng.U64())
-					if bytes.IndexByte(c.Delim, b[j]) < 0 {
-						break
+			for try := 0; ; try++ {
+				for j := range b {
+					if len(c.Delim) > 1 && try < 20 && rng.Chance(25) {
+						b[j] = c.Delim[rng.Intn(len(c.Delim))]
+					} else {
+						for {
+							b[j] = byte(rng.U64())
+							if bytes.IndexByte(c.Delim, b[j]) < 0 {
+								break
+							}
+						}
 					}
+				}
+				if bytes.Index(append(append([]byte{}, b...), c.Delim...), c.Delim) == len(b) {
+					break
 				}
 			}
 			wire = append(wire, piece{Lit: b}, piece{Lit: c.Delim})
@@ -526,6 +536,13 @@ func main() {
 					meta.Violate(hx.Violation{Property: "C08", What: "delimiter decoder delivered a frame without a complete delimiter within max", Signature: "truncated-frame-delivered", Replay: rep})
 					off = len(wire)
 				} else {
+					want := idx
+					if !d.Codec.StripD {
+						want = idx + len(d.Codec.Delim)
+					}
+					if st.Len != want {
+						meta.Violate(hx.Violation{Property: "C08", What: fmt.Sprintf("delimiter decoder delivered a %d-byte frame where the completely received frame has %d bytes (payload ending in a byte of the delimiter cut short?)", st.Len, want), Signature: "truncated-frame-delivered", Replay: rep})
+					}
 					off += idx + len(d.Codec.Delim)
 				}
 			}
